@@ -133,7 +133,7 @@ func (vc *VC) lenOf(st *State, x Term) Term {
 	switch tt := under(x.T).(type) {
 	case *types.Basic:
 		if isString(x.T) {
-			return intTerm("(str.len " + x.S + ")")
+			return intTerm("(s.len " + x.S + ")")
 		}
 	case *types.Slice:
 		return intTerm(vc.sliceLen(x))
@@ -160,7 +160,7 @@ func (vc *VC) indexValue(st *State, x Term, i Term) Term {
 	switch tt := under(x.T).(type) {
 	case *types.Basic:
 		if isString(x.T) {
-			return vc.mk("(str.at "+x.S+" "+i.S+")", types.Typ[types.Uint8])
+			return vc.mk("(s.at "+x.S+" "+i.S+")", types.Typ[types.Uint8])
 		}
 	case *types.Slice:
 		et := vc.ts.apply(tt.Elem())
@@ -317,7 +317,7 @@ func (vc *VC) equal(a, b Term) string {
 
 func (vc *VC) binArith(op token.Token, a, b Term, t types.Type) (Term, bool) {
 	if isString(t) && op == token.ADD {
-		return vc.mk("(str.cat "+a.S+" "+b.S+")", t), true
+		return vc.mk("(s.cat "+a.S+" "+b.S+")", t), true
 	}
 	var s string
 	switch op {
@@ -357,13 +357,13 @@ func (vc *VC) compare(op token.Token, a, b Term) (string, bool) {
 	if isString(a.T) && isString(b.T) {
 		switch op {
 		case token.LSS:
-			return "(str.lt " + a.S + " " + b.S + ")", true
+			return "(s.lt " + a.S + " " + b.S + ")", true
 		case token.GTR:
-			return "(str.lt " + b.S + " " + a.S + ")", true
+			return "(s.lt " + b.S + " " + a.S + ")", true
 		case token.LEQ:
-			return not("(str.lt " + b.S + " " + a.S + ")"), true
+			return not("(s.lt " + b.S + " " + a.S + ")"), true
 		case token.GEQ:
-			return not("(str.lt " + a.S + " " + b.S + ")"), true
+			return not("(s.lt " + a.S + " " + b.S + ")"), true
 		}
 	}
 	switch op {
